@@ -3,6 +3,8 @@ import json, os, re
 from rulelib import *
 import opsum
 
+THOROUGH_CFGS = ('min_none', 'min_rten', 'min_onnx')   # reduced-feature builds of the rten crate (thorough tier)
+
 EXPLANATION = (
     "Random operators are never folded or partially evaluated: for every impl Operator (all features on) the "
     "monomorphic reachability set of run / run_in_place / run_subgraph is intersected with variation sinks (fastrand, "
